@@ -119,10 +119,10 @@ def run(ctx, mode='C02'):
             ctx.violation(what, rep)
     direct_bad = [b for b in direct_bad if b[0] < ext_from]
 
-    bad_i = ctx.run_cases(rc.IMPORTS, rc.CHECK_PRELUDE, 'check_impl', impl_terms, shard=150)
-    bad_n = ctx.run_cases(rc.IMPORTS, rc.CHECK_PRELUDE, 'check_impl_noscope', impl_noscope_terms, shard=150)
-    bad_r = ctx.run_cases(rc.IMPORTS, rc.CHECK_PRELUDE, 'check_ref_full' if c03 else 'check_ref', ref_terms, shard=400)
-    bad_s = ctx.run_cases(rc.IMPORTS, rc.CHECK_PRELUDE, 'check_sound_instance', ref_terms, shard=400)
+    bad_i = rc.guarded_cases(ctx, rc.IMPORTS, rc.CHECK_PRELUDE, 'check_impl', impl_terms, 150, rc.T_IMPL, 'S')
+    bad_n = rc.guarded_cases(ctx, rc.IMPORTS, rc.CHECK_PRELUDE, 'check_impl_noscope', impl_noscope_terms, 150, rc.T_IMPL, 'S')
+    bad_r = rc.guarded_cases(ctx, rc.IMPORTS, rc.CHECK_PRELUDE, 'check_ref_full' if c03 else 'check_ref', ref_terms, 400, rc.T_REF, 'S')
+    bad_s = rc.guarded_cases(ctx, rc.IMPORTS, rc.CHECK_PRELUDE, 'check_sound_instance', ref_terms, 400, rc.T_REF, 'S')
     cov['impl_cases'] = len(impl_terms) + len(impl_noscope_terms)
     cov['impl_disagreements'] = len(bad_i) + len(bad_n)
     cov['ref_cases'] = len(ref_terms)
@@ -210,9 +210,9 @@ def part_x(ctx):
         ctx.extension_failure(what + ' (program with loop exits)', {'kind': 'direct', 'scope': scope, 'tree': body, 'source': obs_of[idx][0],
                                                                     'layout_seed': obs_of[idx][1].get('layout_seed'), 'decisions': eff})
     ty = 'cmd * list (N * list alt) * list N * list N'
-    bad_i = ctx.run_cases(rc.IMPORTS, rc.CHECK_PRELUDE, 'check_implx', impl_terms, case_type=ty, shard=150)
-    bad_r = ctx.run_cases(rc.IMPORTS, rc.CHECK_PRELUDE, 'check_refXs', ref_terms, shard=400)
-    bad_s = ctx.run_cases(rc.IMPORTS, rc.CHECK_PRELUDE, 'check_soundx_instance', ref_terms, shard=400)
+    bad_i = rc.guarded_cases(ctx, rc.IMPORTS, rc.CHECK_PRELUDE, 'check_implx', impl_terms, 150, ty, 'X')
+    bad_r = rc.guarded_cases(ctx, rc.IMPORTS, rc.CHECK_PRELUDE, 'check_refXs', ref_terms, 400, rc.T_REF, 'X')
+    bad_s = rc.guarded_cases(ctx, rc.IMPORTS, rc.CHECK_PRELUDE, 'check_soundx_instance', ref_terms, 400, rc.T_REF, 'X')
     cov['X_impl_cases'] = len(impl_terms)
     cov['X_impl_disagreements'] = len(bad_i)
     cov['X_ref_disagreements'] = len(bad_r)
